@@ -46,7 +46,11 @@ where
     let resolved_addr = resolved_addr.as_pathname().map(|a| a.to_owned());
     let listener_addr = resolved_addr.clone();
     let (stop_channel, stop_callback) = oneshot::channel::<()>();
+    // Dropped together with the accept task: ends the handshakes still in flight
+    let (handshakes_stop, handshakes_stopped) = oneshot::channel::<()>();
+    let handshakes_stopped = handshakes_stopped.shared();
     let task_handle = async_rt::task::spawn(async move {
+        let _handshakes_stop = handshakes_stop;
         let mut stop_callback = stop_callback.fuse();
         loop {
             select! {
@@ -55,7 +59,10 @@ where
                         let peer_addr = peer_addr.as_pathname().map(|a| a.to_owned());
                         (make_framed(raw_socket), Endpoint::Ipc(peer_addr))
                     }).map_err(|err| err.into());
-                    async_rt::task::spawn(cback(maybe_accepted));
+                    async_rt::task::spawn(super::until_stopped(
+                        cback(maybe_accepted),
+                        handshakes_stopped.clone(),
+                    ));
                 },
                 _ = stop_callback => {
                     log::debug!("Accept task received stop signal. {:?}", listener_addr);
